@@ -69,7 +69,7 @@ DUP_SAFE_OPS = ("sort", "sort_radix", "remove_list", "remove_obs", "remove_first
 # what a session may do whose observation rows carry values its track does not list (tracks
 # produced by the simplifier): the feature computations of C17, and everything that only moves Obs around
 LOOSE_OK_OPS = DUP_SAFE_OPS + ("abs_curv", "speed", "speed_direct", "ds", "remove")
-C17_OPS = ("abs_curv", "speed", "speed_direct", "ds", "transform", "fork_noise")
+C17_OPS = ("abs_curv", "speed", "speed_direct", "ds", "transform", "fork_noise", "add_seconds")
 
 
 def feq(a, b):
@@ -459,7 +459,8 @@ class TrackWorld(World):
 
     def _g_rejected(self, r, m):
         return {"kind": r.choice(["update_unknown", "remove_unknown", "create_reserved", "read_unknown",
-                                  "setobs_unknown", "delete_unknown", "expr_unknown", "expr_unknown"]),
+                                  "setobs_unknown", "delete_unknown", "expr_unknown", "expr_unknown",
+                                  "expr_unknown_function", "expr_unknown_function", "create_on_empty"]),
                 "a": self._pick_input(r, m), "b": self._pick_input(r, m), "out": self._pick_name(r, m),
                 "name": self._pick_name(r, m, False), "reserved": r.choice(RESERVED)}
 
@@ -576,6 +577,9 @@ class TrackWorld(World):
         return {"to": r.randrange(self.cfg["sessions"]), "mode": r.choice(["linear", "circular", "euclidian"]),
                 "sigma": r.choice([0.5, 2.0]), "scope": r.choice([None, 5.0, 50.0]), "seed": r.randrange(10 ** 6),
                 "tag0": self.tagc - 70}
+
+    def _g_add_seconds(self, r, m):
+        return {"sec": r.choice([30, 3600, 86400, -30, 86400 * 20, 1])}
 
     def _g_speed_direct(self, r, m):
         return {}
@@ -1509,6 +1513,20 @@ class TrackWorld(World):
         from tracklib.util.exceptions import AnalyticalFeatureError
         t, m = self._sess(st)
         name, kind = st["name"], st["kind"]
+        if kind == "create_on_empty":
+            # documented refusal: a feature cannot be created on a track without observation;
+            # nothing may be registered (the track is filled later and must start clean)
+            if len(m["obs"]) != 0:
+                raise Skip()
+            _, exc = self.call(t.createAnalyticalFeature, st["out"], 1.0)
+            self.stats["fault_fired:rejected_request"] += 1
+            if not isinstance(exc, AnalyticalFeatureError):
+                self.fail("C01", "rejected.exception", "createAnalyticalFeature on an empty track must be refused "
+                          "with AnalyticalFeatureError", "AnalyticalFeatureError", repr(exc))
+                return "raised"
+            self.probe("feature_refused_on_an_empty_track")
+            self._check_all("C01", "refused creation on an empty track (nothing may be registered)")
+            return "rejected"
         if kind != "create_reserved" and (name in m["names"] or name in RESERVED):
             raise Skip()
         if len(m["obs"]) == 0:
@@ -1523,6 +1541,20 @@ class TrackWorld(World):
             _, exc = self.call(t.getAnalyticalFeature, name)
         elif kind == "setobs_unknown":
             _, exc = self.call(t.setObsAnalyticalFeature, name, 0, 1.0)
+        elif kind == "expr_unknown_function":
+            # an expression calling a function the evaluator does not know, after an intermediate
+            # result exists: the library gives up through exit(1) (SystemExit); nothing may change
+            if not self._input_ok(m, st.get("a", "")):
+                raise Skip()
+            _, exc = self.call(t.operate, "%s=(%s*2)+FOO{%s}" % (st["out"], st["a"], st["a"]))
+            self.stats["fault_fired:rejected_request"] += 1
+            if exc is None:
+                self.fail("C01", "rejected.exception", "an expression calling the unknown function FOO must be "
+                          "refused", "an exception / exit", "normal return")
+                return "raised"
+            self.probe("expression_refused_through_exit")
+            self._check_all("C01", "refused expression (nothing may change, no temporary may stay listed)")
+            return "rejected"
         elif kind == "expr_unknown":
             # an expression naming a feature that does not exist, after an intermediate result
             # has been materialised: refused (the library exits / raises), nothing may change
@@ -1889,9 +1921,12 @@ class TrackWorld(World):
             raise Skip()
         if 0 in idx and n - 1 in idx and n > 1:
             self.probe("removal_of_first_and_last")
-        arg = [i for i in st["idx"] if i < n]
-        self._remove_idx(st, t, m, idx, lambda: self.call(t.removeObsList, list(dict.fromkeys(arg))),
-                         "removeObsList(%s)" % idx)
+        arg = list(dict.fromkeys(i for i in st["idx"] if i < n))
+        mine = list(arg)                       # the caller's own list object (it may come back sorted)
+        self._remove_idx(st, t, m, idx, lambda: self.call(t.removeObsList, mine), "removeObsList(%s)" % idx)
+        if not self.violations and sorted(mine) != sorted(arg):
+            self.fail("C04", "remove.argument_consumed", "removeObsList changed the content of the caller's index "
+                      "list (the same list is used for the next track)", sorted(arg), mine)
 
     def op_remove_obs(self, st):
         t, m = self._sess(st)
@@ -2202,6 +2237,45 @@ class TrackWorld(World):
         self.probe("track_transformed_in_place")
         self._check_all("C17", "in-place transformation %s of session %d (every other track must be unchanged)"
                         % (k, st.get("s", 0)))
+
+    def op_add_seconds(self, st):
+        """Track.addSeconds shifts every timestamp (through epoch seconds and back: C03's
+        arithmetic, not judged -- the new timestamps of *this* track are adopted).  Every
+        other session, and everything computed afterwards, is held to the usual oracles."""
+        t, m = self._sess(st)
+        n = len(m["obs"])
+        if n == 0:
+            raise Skip()
+        _, exc = self.call(t.addSeconds, st["sec"])
+        if exc is not None:
+            if isinstance(exc, Exception):
+                raise Skip()
+            return self._unexpected("C17", exc, "addSeconds")
+        if t.size() != n:
+            return self.fail("C17", "table.size", "addSeconds changed the number of observations", n, t.size())
+        new = []
+        for i in range(n):
+            ts = t.getObs(i).timestamp
+            f = [ts.year, ts.month, ts.day, ts.hour, ts.min, ts.sec, ts.ms]
+            try:
+                _dt.datetime(f[0], f[1], f[2], f[3], f[4], f[5])
+                ok = all(isinstance(v, int) for v in f) and 0 <= f[6] <= 999
+            except Exception:  # noqa: BLE001
+                ok = False
+            if not ok:
+                # not a calendar date (C03's subject): this session ends here
+                s_ = st.get("s", 0)
+                self.real.pop(s_, None)
+                self.model.pop(s_, None)
+                self.derived.pop(s_, None)
+                self.probe("shifted_timestamp_is_not_a_calendar_date")
+                return
+            new.append(f)
+        for o, f in zip(m["obs"], new):
+            o["t"] = f
+        m["geo"] += 1
+        self.probe("timestamps_shifted_by_seconds")
+        self._check_all("C17", "addSeconds (every other track must be unchanged)")
 
     def op_fork_noise(self, st):
         """stochastics.noise returns a noised *copy*; it becomes a session of its own.  The copy
